@@ -332,6 +332,11 @@ func degenerateLeaf(rng *rand.Rand) *otree {
 		return &otree{kind: int64(rng.Intn(2)), pt: p()}
 	case 10:
 		a, b, c := p(), p(), p()
+		if rng.Intn(2) == 0 { // degenerate holes: no point, one point, two points, next to a proper one
+			holes := [][]ipt{{}, {p()}, {p(), p()}, {a, b, c, a}}
+			rng.Shuffle(len(holes), func(i, j int) { holes[i], holes[j] = holes[j], holes[i] })
+			return &otree{kind: 4, rings: append([][]ipt{{a, b, c, a}}, holes[:1+rng.Intn(4)]...)}
+		}
 		return &otree{kind: 4, rings: [][]ipt{{a, b, c, a}, {a, b, c, a}}} // a hole equal to the exterior
 	}
 	q, r := p(), p()
